@@ -401,7 +401,17 @@ func ext۰strconv۰ParseFloat(fr *frame, args []value) value {
 func ext۰strconv۰FormatFloat(fr *frame, args []value) value {
 	f, ok := args[0].(float64)
 	if !ok {
-		panic(unsupported("strconv.FormatFloat of a symbolic float"))
+		if f32, ok32 := args[0].(float32); ok32 {
+			f, ok = float64(f32), true
+		}
+	}
+	if !ok {
+		// The decimal text of a symbolic float is not encodable.  A placeholder
+		// is returned and the run is marked: checks whose assertion depends on
+		// float text keep those leaves concrete (DESIGN.md section 3.3).
+		fr.i.run.overApprox++
+		fr.i.run.floatTextCut++
+		return "1.5"
 	}
 	return strconv.FormatFloat(f, args[1].(byte), int(asInt64(args[2])), int(asInt64(args[3])))
 }
@@ -776,6 +786,10 @@ func (i *interpreter) formatValue(verb byte, flags string, arg value) []value {
 				out = append(out, e.v...)
 			}
 			return append(out, uint8(']'))
+		}
+	case rtype:
+		if verb == 'v' || verb == 's' {
+			return strBytes(goTypeString(v.t))
 		}
 	case *value:
 		if verb == 'v' || verb == 's' || verb == 'p' {
